@@ -75,10 +75,10 @@ func (c *Ctx) hard() bool {
 
 // Sys is one real object paired with its reference model.
 type Sys interface {
-	Ops() []Op            // operations enabled in this state (caps applied)
-	Apply(op Op, c *Ctx)  // run op on implementation and model, report deviations
-	Observe(c *Ctx)       // observer suite; must not change the state
-	Key() string          // canonical key: Dump(impl) + model
+	Ops() []Op           // operations enabled in this state (caps applied)
+	Apply(op Op, c *Ctx) // run op on implementation and model, report deviations
+	Observe(c *Ctx)      // observer suite; must not change the state
+	Key() string         // canonical key: Dump(impl) + model
 }
 
 type Spec struct {
@@ -121,10 +121,10 @@ func (p Path) String() string {
 }
 
 type Stats struct {
-	ObserversStateful                      bool // the observer suite changed the private state somewhere
+	ObserversStateful                       bool // the observer suite changed the private state somewhere
 	States, Transitions, Cut, Depth, Pruned int
-	Exhaustive                     bool
-	Closure                        string
+	Exhaustive                              bool
+	Closure                                 string
 }
 
 // Build replays path on a fresh instance without checking.
